@@ -32,7 +32,8 @@ theorem rolls_ge {vals : List (XmlVar × Val)} {n j : Nat} (h : RegularGroup val
   simp only at hx; subst hx
   simp [rollsJ, List.getElem?_eq_none (by omega : xs.length ≤ j)]
 
-theorem roll_regular (vals : List (XmlVar × Val)) (n : Nat) (h : RegularGroup vals n) (hne : vals ≠ []) :
+theorem roll_regular (vals : List (XmlVar × Val)) (n : Nat) (h : RegularGroup vals n) (hne : vals ≠ [])
+    (hnt : ∀ vv ∈ vals, vv.1.tokens = false) :
     ∀ (k j : Nat) (acc : List (XmlVar × Val)), j + k = n →
       nextValue.roll emitOfN (k + 2) j vals acc
         = acc ++ (List.range' j k).flatMap (fun i => vals.flatMap (roundJ i)) := by
@@ -40,11 +41,11 @@ theorem roll_regular (vals : List (XmlVar × Val)) (n : Nat) (h : RegularGroup v
   induction k with
   | zero =>
     intro j acc hj
-    rw [roll_succ, rolls_ge h (by omega)]
+    rw [roll_succ _ _ _ _ hnt, rolls_ge h (by omega)]
     simp
   | succ k ih =>
     intro j acc hj
-    rw [roll_succ, rolls_lt h hne (by omega)]
+    rw [roll_succ _ _ _ _ hnt, rolls_lt h hne (by omega)]
     simp only [if_true]
     rw [ih (j + 1) _ (by omega)]
     simp [List.range'_succ, List.append_assoc]
@@ -52,11 +53,13 @@ theorem roll_regular (vals : List (XmlVar × Val)) (n : Nat) (h : RegularGroup v
 /-- **interleave_reproduced.** A sequence group whose fields all hold `n` items — what a sample with a
 block of children repeated `n` times binds to — is written by `EventGenerator.next_value` round by
 round: first items of all fields in field order, then the second items, … — the document order of
-the regular interleaving. -/
-theorem interleave_reproduced (vals : List (XmlVar × Val)) (n : Nat) (h : RegularGroup vals n) (hne : vals ≠ []) :
+the regular interleaving.  (`hnt`: no field of the group is a token list; since repair c01g-04 the
+serializer writes the list of a tokens field as one element instead of raising `TypeError`.) -/
+theorem interleave_reproduced (vals : List (XmlVar × Val)) (n : Nat) (h : RegularGroup vals n) (hne : vals ≠ [])
+    (hnt : ∀ vv ∈ vals, vv.1.tokens = false) :
     nextValue.roll emitOfN (n + 2) 0 vals []
       = (List.range n).flatMap (fun i => vals.flatMap (roundJ i)) := by
-  have := roll_regular vals n h hne n 0 [] (by omega)
+  have := roll_regular vals n h hne hnt n 0 [] (by omega)
   simpa [List.range_eq_range'] using this
 
 /-- round `i` of a regular group is the `i`-th item of every field -/
